@@ -496,8 +496,15 @@ package core
 //@   pure
 
 // Accessors read by the rule hash: functions of the target (and, for the command, of the configuration).
-//@ assume func (BuildLabel).String
+// The printed form of a label (its value is a function of the label: `pure`): an optional ///subrepo prefix,
+// then //package, then :name — or "..." / "/..." for the all-subpackages wildcard. This is the form ParseBuildLabel
+// reads back (C20: labels round-trip).
+//@ func (BuildLabel).String
 //@   pure
+//@   modifies nothing
+//@   ensures printed_form [C20]: !(label.PackageName == "" && label.Name == "" && label.Subrepo == "") && !label.IsOriginalTarget() ==> \
+//@      result == ite(label.Subrepo != "", "///" + label.Subrepo, "") + "//" + label.PackageName + \
+//@         ite(label.Name == "...", ite(label.PackageName == "", "...", "/..."), ":" + label.Name)
 //@ assume func (BuildInput).String
 //@   pure
 //@ assume func (BuildTarget).GetCommand
